@@ -197,8 +197,9 @@ class SymCtx:
     def desc_run(self, t, j):
         """(lo, hi): the maximal strictly decreasing run [lo, hi) of the sequence t that contains index j.
         RUN-DECOMPOSITION: lo and hi are Skolem functions of the theorem "every index of a finite integer
-        sequence lies in a maximal decreasing run" - a fact about finite sequences, not about code, stated once
-        per sequence as an axiom and listed under rules_used."""
+        sequence lies in a maximal strictly decreasing run" - a fact about finite sequences, not about code, stated
+        once per sequence as an axiom and listed under rules_used.  (Stated so that it is true of EVERY integer
+        sequence, with ties: strictly decreasing inside, a non-descent or the end of the sequence at both borders.)"""
         eng = self.engine
         lo, hi = self.ghost("RUNLO", t, j), self.ghost("RUNHI", t, j)
         done = eng.__dict__.setdefault("_desc_run_done", set())
@@ -212,7 +213,7 @@ class SymCtx:
             at = lambda x: Z(t[x])  # noqa: E731
             inr = z3.And(jv >= 0, jv < n)
             eng.global_axioms.append(z3.ForAll([jv], z3.Implies(inr, z3.And(0 <= L, L <= jv, jv < H, H <= n)), patterns=[L, H], qid="run-bounds"))
-            eng.global_axioms.append(z3.ForAll([jv], z3.Implies(inr, z3.And(z3.Or(L == 0, at(L - 1) < at(L)), z3.Or(H == n, at(H - 1) < at(H)))), patterns=[L, H], qid="run-maximal"))
+            eng.global_axioms.append(z3.ForAll([jv], z3.Implies(inr, z3.And(z3.Or(L == 0, at(L - 1) <= at(L)), z3.Or(H == n, at(H - 1) <= at(H)))), patterns=[L, H], qid="run-maximal"))
             eng.global_axioms.append(z3.ForAll([jv, k, l], z3.Implies(z3.And(inr, L <= k, k < l, l < H), at(k) > at(l)),
                                                patterns=[z3.MultiPattern(L, at(k), at(l))], qid="run-decreasing"))
         return lo, hi
